@@ -85,4 +85,4 @@ def run(tier, seed, replay=None):
     bcov = bulk.run_differential(rep, 'C17', plan, {'rel': rel, 'f32': f32}, wd, '%s-%d' % (tier, seed), judge='both', model_calls=(1 << 22) if tier == 'thorough' else (1 << 19)) if plan else None
     extra = {'bulk_differential': bcov, 'force_32bits_compiles_with_crate_lints': compile_ok, 'records_compared': len(lines), 'backend_differences': ndiff,
              'workloads': ['C12', 'C13', 'C14', 'C15']}
-    return rep.finish(FLOORS, extra)
+    return rep.finish(None if replay else FLOORS, extra)   # a replay re-runs a handful of cases: no floors
